@@ -4,6 +4,7 @@ from __future__ import annotations
 
 import json
 import os
+import re
 import time
 
 from .loader import AnalysisError
@@ -61,6 +62,43 @@ def load_known():
     return data.get("findings", [])
 
 
+_IDENT = re.compile(r"[A-Za-z_][A-Za-z0-9_]*|[^A-Za-z_]+")
+STRUCTURAL_NAMES: set = set()  # filled by Context: function / class / module / attribute names of the analysed repo
+
+
+def alpha_equivalent(a: str, b: str) -> bool:
+    """The two construct texts differ only by a consistent one-to-one renaming of identifiers that are not names of
+    functions, classes, modules or attributes of the analysed package (i.e. of local variables)."""
+    ta, tb = _IDENT.findall(a), _IDENT.findall(b)
+    if len(ta) != len(tb):
+        return False
+    fwd, bwd = {}, {}
+    for x, y in zip(ta, tb):
+        if x == y:
+            if fwd.get(x, x) != x or bwd.get(y, y) != y:
+                return False
+            fwd[x] = x
+            bwd[y] = y
+            continue
+        if not (x[0].isalpha() or x[0] == "_") or not (y[0].isalpha() or y[0] == "_"):
+            return False
+        if x in STRUCTURAL_NAMES or y in STRUCTURAL_NAMES:
+            return False
+        if fwd.setdefault(x, y) != y or bwd.setdefault(y, x) != x:
+            return False
+    return True
+
+
+def _head(construct: str):
+    """`module:function:callee(first-argument` of a call-site construct, or None when the text has no such shape."""
+    i = construct.find("(")
+    if i < 0 or construct.count(":") < 2:
+        return None
+    j = construct.find(",", i)
+    h = construct[: j if j > 0 else len(construct)]
+    return h if len(h) >= 25 else None
+
+
 def _match_known(ob, known):
     for k in known:
         if "fixed" in k:
@@ -90,6 +128,34 @@ def finish(prop: str, tier: str, rules: list[Rule], started: float, explanation:
             matched.append((o, k))
         else:
             new_viol.append(o)
+    # a recorded finding whose construct text changed only by a renaming of locals is still that finding: each
+    # recorded entry that did not fire verbatim may absorb exactly one new construct of the same rule
+    fired = {(k.get("rule"), k.get("construct")) for _, k in matched}
+    unfired = [k for k in known if "fixed" not in k and k.get("property") == prop and (k.get("rule"), k.get("construct")) not in fired]
+    if unfired and new_viol:
+        by_construct = {}
+        for o in new_viol:
+            by_construct.setdefault((o["rule"], o["construct"]), []).append(o)
+        used = set()
+        for (rule, construct), obs in by_construct.items():
+            cands = [i for i, k in enumerate(unfired) if i not in used and k.get("rule") == rule and alpha_equivalent(k.get("construct", ""), construct)]
+            if not cands:
+                # same rule, same function, same call head (callee and first argument): the call site was reworded
+                h = _head(construct)
+                if h is not None:
+                    cands = [i for i, k in enumerate(unfired) if i not in used and k.get("rule") == rule and _head(k.get("construct", "")) == h]
+                    others = [c for (r2_, c) in by_construct if r2_ == rule and c != construct and _head(c) == h]
+                    if others:
+                        cands = []  # ambiguous: several new constructs share the head
+            if len(cands) == 1:
+                k = unfired[cands[0]]
+                used.add(cands[0])
+                for o in obs:
+                    o["verdict"] = "KNOWN-FINDING"
+                    o["known_finding"] = k.get("what", "")
+                    o["matched_modulo_local_names"] = k.get("construct")
+                    matched.append((o, k))
+        new_viol = [o for o in new_viol if o["verdict"] == "FAILED"]
     # known findings that no longer fire are reported (informational)
     fired = {(k.get("rule"), k.get("construct")) for _, k in matched}
     stale = [k for k in known if "fixed" not in k and k.get("property") == prop
